@@ -23,9 +23,19 @@ def facts : Facts :=
     argTypeElem := true,
     defTypeCmp := .ge,
     defTypeElem := false,
-    callOnEllipsis := .callSlice,
-    callOtherwise := .call,
-    deferCall := .call,
+    callArms := [⟨.ellipsis, .callSlice⟩, ⟨.variadic, .callVariadic⟩, ⟨.always, .call⟩],
+    fvArms := [⟨.ellipsis, .callSlice⟩, ⟨.variadic, .callVariadic⟩, ⟨.always, .call⟩],
+    cvGuardVariadic := true,
+    cvCmp := .eq,
+    cvSub := 1,
+    cvThen := .callSlice,
+    cvAppendZero := true,
+    cvElse := .call,
+    deferCall := .callVariadic,
+    deferWrapBin := true,
+    deferWrapCall := true,
+    deferWrapKind := .callSlice,
+    deferWrapVariadic := false,
     assignSrcIdx := .i,
     assignDstIdx := .i,
     returnDstIdx := (.add .base .i),
@@ -34,6 +44,7 @@ def facts : Facts :=
     nestedReadIdx := (.add .base .i),
     wrapFrameIsDefTypes := true,
     wrapFramePerCall := true,
+    wrapRecvAtCreation := true,
     getFuncFramePerCall := true,
     wrapArgBase := .base,
     wrapRcvrShift := 1,
@@ -45,14 +56,18 @@ def facts : Facts :=
 
 /-- fingerprints (extract/common FuncHash) of the functions Model/Boundary.lean was transcribed from -/
 def sourceHashes : List (String × String) :=
-  [("callBin", "abb2f8bcc33a1b4f"),
-   ("genFunctionWrapper", "2865f1c325015a31"),
+  [("callBin", "ba3c7c394daa2733"),
+   ("genFunctionWrapper", "d3025d79ab731dcf"),
    ("getFunc", "e1777a5459c1a52e"),
-   ("call", "a144e4e9c42a5836"),
+   ("call", "13deaf5e1d58559d"),
    ("genInterfaceWrapper", "c81bdaf729e4a071"),
    ("methodByName", "cf343e4f55a358c1"),
    ("getFrame", "48dc117bdbd1af33"),
-   ("genValueInterface", "ace589b21eb98d0d"),
+   ("callVariadic", "a136ff7434f20d7e"),
+   ("deferCallSlice", "8195ae3a302030b3"),
+   ("runDeferred", "3744dc350d781dfc"),
+   ("copyDeferArg", "d8586ba1ea695e54"),
+   ("genValueInterface", "1ef4b98ccbd7c706"),
    ("genValueInterfaceValue", "171a29501f555858"),
    ("valueInterfaceValue", "a7b9b257cb102bd6"),
    ("genFuncValue", "269e90121fb56e6d"),
@@ -78,15 +93,23 @@ def sourceHashes : List (String × String) :=
    ("variadicPos", "d7663b726c26e3e4"),
    ("childPos", "7ad4b844f77f7498")]
 
-/-- Further reviewed versions of transcribed functions. `callBin` / `call` with `copyDeferArg(…)` around the arguments kept
-    for a deferred call (repair of the defer-argument aliasing, C06 F06-1): the change is confined to the deferStmt arm,
-    which the model does not transcribe (only Call-versus-CallSlice of runCfg's deferred loop is a fact). -/
+/-- Further reviewed versions of transcribed functions (none at present). The versions listed above were reviewed, function
+    by function, against the previously reviewed ones (callBin fad6515f69157102, call f7d2679c6d3b791d, genFunctionWrapper
+    2865f1c325015a31, genValueInterface ace589b21eb98d0d); every difference is one of
+    * 8600fa9 (F07-2): callBin's `callFn` and the function-value branch of `call` get the arm `variadic >= 0 → callVariadic`
+      (facts `callArms`, `fvArms`, `cv*`); runDeferred calls the record with callVariadic (`deferCall`);
+    * eef6ac5 (F07-4): the defer arms of callBin / call wrap `val[0]` with deferCallSlice when the call has an ellipsis
+      (`deferWrapBin`, `deferWrapCall`, `deferWrapKind`, `deferWrapVariadic`);
+    * 3081633: genFunctionWrapper reads the receiver (`rcvr(f)`, unboxing, `Elem`/`Addr`, copy of a value receiver) when the
+      wrapper is made and the MakeFunc literal only stores it (`wrapRecvAtCreation`);
+    * 312e281: callBin's goStmt arm copies the function value (when addressable) and the arguments with copyDeferArg before
+      `go callFn(fn, in)` — not transcribed (no aliasing in the model; goroutines are C08's subject);
+    * 16a5ac7: genValueInterface boxes a COPY of an addressable value — the model's `vi` box holds a datum, never a variable;
+    * db2d0c1 (reviewed before, C02 F02-5): `call` skips a zero-valued argument only when its type differs from the
+      parameter's; arguments of the parameter's type are always copied (what the model assumes for every argument);
+    * 215471a / 2e388d6: runCfg's deferred loop calls runDeferred (own recover) with the frame lock released. -/
 def alsoReviewed : List (String × String) :=
-  [("callBin", "fad6515f69157102"),
-   ("call", "6d0b111cecb0ee9c"),
-   -- db2d0c1 (C02 F02-5): the "skip a zero-valued argument" shortcut of call applies only when the types differ;
-   -- arguments of the parameter's type are always copied (what the model assumes for every argument)
-   ("call", "f7d2679c6d3b791d")]
+  []
 
 /-- the fingerprints read from the source are, name by name and in order, reviewed ones -/
 def hashesReviewed (gen : List (String × String)) : Bool :=
